@@ -185,49 +185,16 @@ func InstrMethodKey(instr ssa.CallInstruction) fn.Optional[string] {
 
 // FnReadsFrom returns true if an instruction in fn reads from val.
 //
-//gocyclo:ignore
+// The summary graph of a function has an access node for a global at every instruction that has the global among
+// its operands (see NewSummaryGraph), whatever the instruction kind and the operand position (index expressions,
+// slices, lookups, call arguments, phi edges, ...). This function must recognise at least those instructions,
+// otherwise on-demand summarization skips functions that the eager analysis links to the global.
 func FnReadsFrom(fn *ssa.Function, val ssa.Value) bool {
+	var operands []*ssa.Value
 	for _, blk := range fn.Blocks {
 		for _, instr := range blk.Instrs {
-			switch instr := instr.(type) {
-			case *ssa.UnOp:
-				if instr.X == val {
-					return true
-				}
-			case *ssa.BinOp:
-				if instr.X == val || instr.Y == val {
-					return true
-				}
-			case *ssa.Store:
-				// Special store
-				switch addr := instr.Addr.(type) {
-				case *ssa.FieldAddr:
-					if addr.X == val {
-						return true
-					}
-				}
-
-				if instr.Val == val {
-					return true
-				}
-			case *ssa.MapUpdate:
-				if instr.Value == val {
-					return true
-				}
-			case *ssa.Send:
-				if instr.X == val {
-					return true
-				}
-			case *ssa.Field:
-				if instr.X == val {
-					return true
-				}
-			case *ssa.FieldAddr:
-				if instr.X == val {
-					return true
-				}
-			case *ssa.Convert:
-				if instr.X == val {
+			for _, operand := range instr.Operands(operands[:0]) {
+				if operand != nil && *operand == val {
 					return true
 				}
 			}
@@ -238,20 +205,14 @@ func FnReadsFrom(fn *ssa.Function, val ssa.Value) bool {
 }
 
 // FnWritesTo returns true if an instruction in fn writes to val.
+//
+// Like FnReadsFrom, this over-approximates by recognising every instruction that has val among its operands.
 func FnWritesTo(fn *ssa.Function, val ssa.Value) bool {
+	var operands []*ssa.Value
 	for _, blk := range fn.Blocks {
 		for _, instr := range blk.Instrs {
-			switch instr := instr.(type) {
-			case *ssa.Store:
-				if instr.Addr == val {
-					return true
-				}
-			case *ssa.MapUpdate:
-				if instr.Map == val {
-					return true
-				}
-			case *ssa.Send:
-				if instr.Chan == val {
+			for _, operand := range instr.Operands(operands[:0]) {
+				if operand != nil && *operand == val {
 					return true
 				}
 			}
